@@ -73,8 +73,17 @@ EventAndStop(t) ==
     /\ hist' = Append(hist, [op |-> "event", kind |-> "stop", typ |-> t, cb |-> 0, recv |-> Receivers(t)])
     /\ UNCHANGED <<cbs, connected>>
 
+\* the stream ends right after the event's last field line, before the blank line: the pending event is dispatched at the
+\* end of input (event.go's read does so, see Stream.tla), to the callbacks of its type like any other
+EventAtEnd(t) ==
+    /\ Can /\ connected /\ ~stopped /\ Receivers(t) # {}
+    /\ Push(<<"event", t>>)
+    /\ stopped' = TRUE
+    /\ hist' = Append(hist, [op |-> "event", kind |-> "atend", typ |-> t, cb |-> 0, recv |-> Receivers(t)])
+    /\ UNCHANGED <<cbs, connected>>
+
 Next ==
-    \/ \E t \in Types : Subscribe("type", t) \/ Event(t) \/ EventAndStop(t)
+    \/ \E t \in Types : Subscribe("type", t) \/ Event(t) \/ EventAndStop(t) \/ EventAtEnd(t)
     \/ Subscribe("all", "")
     \/ \E i \in 1..Len(cbs) : Unsubscribe(i)
     \/ Connect
